@@ -118,7 +118,7 @@ CONFIG = {
                         "MDAnalysis `bynum a:b` is 1-based inclusive and ignores atoms beyond the last one"],
     },
     "C14": {
-        "level": "other", "proof": True, "rtc": True, "lean": ["lemmas/C14Stationary.lean"],
+        "level": "other", "proof": True, "rtc": True, "lean": ["lemmas/C14Stationary.lean"], "lean_quick": True,
         "explanation": "C14 is a lemma over contracts. Proved: writer->reader wiring (each load_X after save_X returns exactly the "
                        "corresponding FullGrid getter's value: value, pattern, entry order by the round-trip contract), C01's entry "
                        "formula lemmas (detailed balance w.r.t. V_i exp(-E_i/RT) on a symmetric pattern), DecompositionTool."
@@ -211,17 +211,21 @@ CONFIG["C05"] = {
     "assumptions": ["sum linearity over cells is not proved (sum clauses are bounded)"],
 }
 CONFIG["C12"] = {
-    "level": "other", "proof": True, "rtc": True,
+    "level": "other", "proof": True, "rtc": True, "lean": ["lemmas/C12Windows.lean"], "lean_quick": True,
     "explanation": "Proved: window() as a sequence contract for all trajectories, lags and steps (loop invariant with ghost rank: the "
                    "k-th valid window (x_k, x_{k+tau}), k = 0, step, ... < L-tau, NaN windows skipped, is yielded at position rank(k); "
                    "every yield comes from a valid window, in order), noncorr_window = window with step tau, "
                    "MSM.get_one_tau_transition_matrix for both modes (loop invariant: count matrix = c + c^T over the consumed yields; "
                    "result T(i,j) = M(i,j)/s_i with s_i = row total or 1), lemmas (detailed balance w.r.t. visit counts, unit interval, "
-                   "visited rows sum to 1, unvisited rows zero). Bounded only: reversal invariance and the identification of counts over "
-                   "yields with counts over windows, exhaustively for all trajectories of length <= 6/8 over {0,1,2,NaN}.",
+                   "visited rows sum to 1, unvisited rows zero). Lean 4 / Mathlib (lemmas/C12Windows.lean, checked on every run): the number of "
+                   "positions of the yielded sequence holding a pair equals the number of valid windows equal to it (from the source "
+                   "function the window contract establishes), and the window count (i,j) of the reversed trajectory is the window count "
+                   "(j,i) of the original one (bijection k -> L-tau-1-k), so c + c^T and the matrix are unchanged by reversal in sliding "
+                   "mode. Bounded: all clauses again, exhaustively for all trajectories of length <= 6/8 over {0,1,2,NaN}.",
     "trusted_base": [NUMPY, SCIPY_SPARSE + "; dok item access, diags, diagonal.dot(sparse)",
                      "ghost rank/source functions of the window sequence defined by recursion (conservative extension)"],
-    "assumptions": ["counting-under-bijection lemma (count over the yield sequence = count over valid windows) is not proved deductively",
+    "assumptions": ["the two counting lemmas are proved in Lean over abstract sequences; that their hypotheses are the window contract's "
+                    "post-conditions (source function injective, onto the valid windows, value-preserving) is a reading, not a mechanical link",
                     "tau is modelled as an integer (the code applies int(tau))"],
 }
 CONFIG["C13"] = {
